@@ -65,6 +65,23 @@ def run(ctx):
         if kind == 1: cfg |= (rng.randrange(4) << 12) | (rng.randrange(2) << 16) | (rng.choice([0, 1, 2]) << 20)
         sc = gen_script(rng, n, kind)
         lines.append('flush %d %d %d %s %s %s' % (kind, cfg, rng.randrange(1 << 20), fs, sc, d.hex() or '-')); meta.append((kind, fs, sc, d))
+    # several Blocks through ONE filter chain instance with a branch/call/jump or delta filter in front (full flush / barrier,
+    # threaded workers reused for later Blocks): whatever the filter kept from the end of one Block must not reach the next
+    bchains = ['x86+lzma2:dict=4KiB', 'x86+delta:dist=2+lzma2:dict=4KiB,mf=hc3', 'arm64+lzma2:dict=4KiB', 'armthumb+lzma2:dict=4KiB', 'arm+lzma2:dict=8KiB', 'powerpc+lzma2:dict=4KiB',
+               'sparc+lzma2:dict=4KiB', 'ia64+lzma2:dict=4KiB', 'riscv+lzma2:dict=4KiB', 'delta:dist=7+lzma2:dict=4KiB', 'x86+arm64+lzma2:dict=4KiB']
+    for i in range(300 if ctx.quick() else 6000):
+        n = rng.choice([30, 200, 700, rng.randrange(20, 5000)])
+        d = xzgen.gen_data(rng, n) if rng.random() < 0.5 else bytes(rng.getrandbits(8) for _ in range(n))
+        kind = rng.choice([4, 4, 4, 1]); fs = rng.choice(bchains)
+        cfg = rng.choice([0, 1, 4, 10]) << 8
+        if kind == 1: cfg |= (rng.randrange(2) << 12) | (rng.randrange(2) << 16) | (1 << 20)
+        steps = []; left = n
+        for j in range(rng.randrange(1, 6)):
+            k = rng.randrange(0, left + 1) if rng.random() < 0.7 else min(left, rng.randrange(0, 9)); left -= k
+            steps.append('%s%d' % (rng.choice('FFFB'), k))
+        steps.append('R%d' % left)
+        sc = ';'.join(steps)
+        lines.append('flush %d %d %d %s %s %s' % (kind, cfg, rng.randrange(1 << 20), fs, sc, d.hex() or '-')); meta.append((kind, fs, sc, d))
     # corpus: back-to-back sync flushes with little new input on binary-tree match finders, flush as first call, flush without input
     for mf in ('bt2', 'bt3', 'bt4', 'hc4'):
         d = (b'abcdefgh12345678' * 40)[:500] + xzgen.gen_data(rng, 100)
